@@ -24,7 +24,7 @@ var verifySpace = engine.Space{
 	engine.D("iss", A, B, SVC, ghost, "absent"),
 	engine.D("sub", "=iss", "u1", "absent", "peer"),
 	engine.D("aud", "[I]", "[x]", "[x,I]", "I-string", "[]", "absent", "[tokenURL]", "[I2]", "[I/]"),
-	engine.D("kid", "jk2", "jk1", "bk1", "sk1", "zz", "absent"),
+	engine.D("kid", "jk2", "jk1", "bk1", "sk1", "zz", "absent", "bk2"),
 	engine.D("signer", "A.k2/ES256", "A.k1/RS256", "A.k1/PS256", "B.k/ES256", "svc.k/RS256", "op-key/ES256", "attacker/RS256",
 		"A.k1/RS384", "A.k1pub/HS256", "none", "A.k2/ES256-bad", "A.ed/EdDSA"),
 	engine.D("variant", "default", "custom-subject", "keyset"),
@@ -35,6 +35,7 @@ var verifySpace = engine.Space{
 	engine.D("phase", "250ms", "750ms"),
 	engine.D("vIssuer", "I", "I2"),
 	engine.D("extra", "none", "scope", "nested", "client_id"),
+	engine.D("reg", "default", "A-without-jk2", "B-shares-A.k2"),
 }
 
 func peerOf(iss string) string {
@@ -102,21 +103,28 @@ func runVerify(t *testing.T, c *engine.Check) {
 		Groups: [][]string{
 			{"iss", "sub", "aud", "kid", "signer", "variant"},
 			{"iat", "exp", "offset", "maxAge", "phase"},
+			{"iss", "kid", "signer", "reg", "variant"},
 		},
-		Ks: []int{engine.Pick(c, 0, 1), engine.Pick(c, 1, 2)},
+		Ks: []int{engine.Pick(c, 0, 1), engine.Pick(c, 1, 2), engine.Pick(c, 1, 2)},
 		NewWorker: func(int) func(engine.Vec) engine.Result {
-			r := newRig(true)
+			rigs, regs := map[string]*rig.Rig{}, map[string]map[string]map[string]string{}
+			for _, variant := range sp[sp.Idx("reg")].Vals {
+				cfg := newConfig()
+				regs[variant] = registrationTable(variant)
+				applyRegistration(cfg, regs[variant])
+				rigs[variant] = rig.MustNew(rig.Opts{Cfg: cfg})
+			}
 			return func(v engine.Vec) engine.Result {
 				g := func(n string) string { return sp.Get(v, n) }
-				return verifyCase(t, r, g)
+				return verifyCase(t, rigs[g("reg")], regs[g("reg")], g)
 			}
 		},
 	})
 }
 
-func verifyCase(t *testing.T, r *rig.Rig, g func(string) string) engine.Result {
+func verifyCase(t *testing.T, r *rig.Rig, reg map[string]map[string]string, g func(string) string) engine.Result {
 	a := decodeAssertion(g)
-	cfg := vcfg{issuer: I, maxAge: mustDur(g("maxAge")), offset: mustDur(g("offset"))}
+	cfg := vcfg{issuer: I, maxAge: mustDur(g("maxAge")), offset: mustDur(g("offset")), reg: reg}
 	if g("vIssuer") == "I2" {
 		cfg.issuer = I2
 	}
@@ -136,7 +144,7 @@ func verifyCase(t *testing.T, r *rig.Rig, g func(string) string) engine.Result {
 	case "custom-subject":
 		ver = op.NewJWTProfileVerifier(r.Storage, cfg.issuer, cfg.maxAge, cfg.offset, op.SubjectCheck(customSubject))
 	case "keyset":
-		ver = op.NewJWTProfileVerifierKeySet(issKeySet{calls: &ksCalls}, cfg.issuer, cfg.maxAge, cfg.offset)
+		ver = op.NewJWTProfileVerifierKeySet(issKeySet{calls: &ksCalls, reg: reg}, cfg.issuer, cfg.maxAge, cfg.offset)
 	}
 	r.Core.Reset(r.Core.St)
 	var req *oidc.JWTTokenRequest
@@ -156,7 +164,13 @@ func verifyCase(t *testing.T, r *rig.Rig, g func(string) string) engine.Result {
 	if err != nil {
 		outcome = "rejected:" + errClass(err)
 	}
-	desc := fmt.Sprintf("assertion header=%+v payload=%s verifier{issuer=%s maxAge=%s offset=%s %s} now=T0+%s", headerOf(tok), parseCompact(tok).payload, cfg.issuer, cfg.maxAge, cfg.offset, variant, g("phase"))
+	mk := func() string {
+		return fmt.Sprintf("assertion header=%+v payload=%s verifier{issuer=%s maxAge=%s offset=%s %s} now=T0+%s", headerOf(tok), parseCompact(tok).payload, cfg.issuer, cfg.maxAge, cfg.offset, variant, g("phase"))
+	}
+	if err != nil && expect != mustAccept && req == nil {
+		return engine.OK(rule, outcome)
+	}
+	desc := mk()
 	switch {
 	case expect == mustReject && err == nil:
 		return engine.Bad(rule, outcome, "C14/accepted-despite:"+rule+site, "the statement requires rejection ("+rule+") but the assertion was accepted: "+desc)
